@@ -96,6 +96,7 @@ func registerGzip(m *Machine) {
 		l := m.newLoc(tn.Type())
 		m.fieldLoc(l, "w").V = a[0]
 		m.fieldLoc(l, "level").V = level
+		m.fieldLoc(m.fieldLoc(l, "Header"), "OS").V = m.ctx.BV(8, 255) // gzip.Writer.init: Header{OS: 255}
 		m.ghost[l] = &gzWriterState{}
 		return Tuple{Ptr{L: l, I: -1}, Iface{}}
 	}
@@ -105,6 +106,7 @@ func registerGzip(m *Machine) {
 		// Reset clears the header as the real one does
 		hl := m.fieldLoc(l, "Header")
 		m.storeLoc(hl, m.zero(hl.Typ))
+		m.fieldLoc(hl, "OS").V = m.ctx.BV(8, 255) // gzip.Writer.init: Header{OS: 255}
 		m.ghost[l] = &gzWriterState{}
 		return nil
 	}
@@ -178,7 +180,7 @@ func registerGzip(m *Machine) {
 			}
 			for _, ch := range m.strBytes(s) {
 				// gzip stores Latin-1 strings and rejects NUL
-				m.check(c.Not(c.Eq(ch, b8(0))), "unsupported", "gzip header string with NUL byte (the real writer returns an error)")
+				m.check(c.And(c.Not(c.Eq(ch, b8(0))), c.ULT(ch, b8(0x80))), "unsupported", "gzip header string with NUL or non-ASCII byte (the real writer converts to Latin-1 or returns an error)")
 				out = append(out, ch)
 			}
 			out = append(out, b8(0))
